@@ -154,7 +154,7 @@ def r7_mut_self(text, log):
     return text[:bo + 1] + "\n        let mut this = self;" + "".join(out) + text[bc:]
 
 
-def r0_named_return(text, log):
+def r0_named_return(text, log, name="r"):
     """R0: `fn f(..) -> T {` -> `fn f(..) -> (r: T) {` (Verus names the result in the signature)."""
     m = L.mask(text)
     mt = re.search(r"\bfn\s+\w+", m)
@@ -169,8 +169,8 @@ def r0_named_return(text, log):
     wh = re.search(r"\bwhere\b", m[arrow:bo])
     end = arrow + wh.start() if wh else bo
     ty = text[arrow + 2:end].strip()
-    log.append({"rule": "R0-named-return", "before": "-> " + ty, "after": f"-> (r: {ty})"})
-    return text[:arrow] + f"-> (r: {ty}) " + text[end:]
+    log.append({"rule": "R0-named-return", "before": "-> " + ty, "after": f"-> ({name}: {ty})"})
+    return text[:arrow] + f"-> ({name}: {ty}) " + text[end:]
 
 
 def r4_format(text, log):
@@ -272,6 +272,9 @@ def apply_rewrites(text, rewrites, log):
     for rw in rewrites:
         if len(rw) == 1:
             text = STRUCTURAL[rw[0]](text, log)
+            continue
+        if len(rw) == 2 and rw[0] in STRUCTURAL:
+            text = STRUCTURAL[rw[0]](text, log, rw[1])
             continue
         rule, pat, repl = rw[0], rw[1], rw[2]
         count = rw[3] if len(rw) > 3 else 1
